@@ -11,7 +11,6 @@ import (
 	"context"
 	"errors"
 	"fmt"
-	"sort"
 	"sync"
 
 	"github.com/protolambda/zrnt/eth2/beacon"
@@ -54,6 +53,7 @@ type Record struct {
 	ParentRoot refspec.Root // parent of BlockRoot
 	Ref        *refspec.State
 	Branch     int // 0 = trunk
+	Head       bool // the view's head entry (last trunk step)
 	Signed     *refspec.SignedBlock
 }
 
@@ -123,14 +123,23 @@ func latestBlockRoot(sp *refspec.Spec, st *refspec.State) refspec.Root {
 var ErrDiscard = errors.New("library state differs from the reference")
 
 type builder struct {
-	v   *View
-	ctx context.Context
+	v        *View
+	ctx      context.Context
+	recIndex map[rootSlot]int
+	lastRec  int // record index of the last trunk step
 }
 
 func (b *builder) register(l *sim.Lock, slot uint64, isBlock bool, blockRoot, parentRoot refspec.Root, ref *refspec.State, branch int, sb *refspec.SignedBlock) error {
 	key := rootSlot{common.Root(blockRoot), common.Slot(slot)}
-	if _, ok := b.v.byBlockSlot[key]; ok {
-		return nil // same (root, slot) reached along another branch: identical state
+	if ex, ok := b.v.byBlockSlot[key]; ok {
+		// same (root, slot) reached along another branch: identical state. The trunk claims it.
+		if branch == 0 {
+			ex.Branch = 0
+			b.v.canon[ex.step] = ex
+			b.v.Records[b.recIndex[key]].Branch = 0
+			b.lastRec = b.recIndex[key]
+		}
+		return nil
 	}
 	cp, err := l.Lib.BeaconState.CopyState()
 	if err != nil {
@@ -148,6 +157,10 @@ func (b *builder) register(l *sim.Lock, slot uint64, isBlock bool, blockRoot, pa
 	}
 	if branch == 0 {
 		b.v.canon[e.step] = e
+	}
+	b.recIndex[key] = len(b.v.Records)
+	if branch == 0 {
+		b.lastRec = len(b.v.Records)
 	}
 	b.v.Records = append(b.v.Records, Record{Slot: slot, IsBlock: isBlock, BlockRoot: blockRoot, ParentRoot: parentRoot, Ref: ref.Copy(), Branch: branch, Signed: sb})
 	return nil
@@ -229,7 +242,7 @@ func Build(vc *ViewCase) (*View, error) {
 	}
 	v := &View{Spec: l.LibSpec, byBlock: map[common.Root]*Entry{}, byBlockSlot: map[rootSlot]*Entry{}, byStateRoot: map[common.Root]*Entry{},
 		children: map[common.Root][]common.Root{}, canon: map[common.Step]*Entry{}, derived: map[rootSlot]*Entry{}}
-	b := &builder{v: v, ctx: context.Background()}
+	b := &builder{v: v, ctx: context.Background(), recIndex: map[rootSlot]int{}}
 	if d := l.Compare(); d != "" {
 		return nil, ErrDiscard
 	}
@@ -270,12 +283,12 @@ func Build(vc *ViewCase) (*View, error) {
 		}
 	}
 	v.Lock = l
-	// head: the last trunk entry; checkpoints: the head state's (library side)
-	for i := len(v.entries) - 1; i >= 0; i-- {
-		if v.entries[i].Branch == 0 {
-			v.head = v.entries[i]
-			break
-		}
+	// head: the last trunk step; checkpoints: the head state's (library side)
+	hr := &v.Records[b.lastRec]
+	hr.Head = true
+	v.head = v.byBlockSlot[rootSlot{common.Root(hr.BlockRoot), common.Slot(hr.Slot)}]
+	if hs, err := v.head.state.Slot(); err != nil || uint64(hs) != l.St.Slot {
+		return nil, fmt.Errorf("head entry is not the trunk's last step")
 	}
 	fin, err := l.Lib.FinalizedCheckpoint()
 	if err != nil {
@@ -471,7 +484,12 @@ func (v *View) Towards(ctx context.Context, fromBlockRoot common.Root, toSlot co
 	}
 	st := zb.Upgradeable(cp)
 	epc := c.epc.Clone()
-	if err := common.ProcessSlots(ctx, v.Spec, epc, st, toSlot); err != nil {
+	// The caller's deadline is deliberately not applied to the slot processing: a verdict must not depend
+	// on how loaded the machine is (the validators pass a 2 s wall-clock timeout).
+	if err := ctx.Err(); err != nil {
+		return nil, err
+	}
+	if err := common.ProcessSlots(context.Background(), v.Spec, epc, st, toSlot); err != nil {
 		return nil, err
 	}
 	d = &Entry{step: common.AsStep(toSlot, false), blockRoot: fromBlockRoot, parentRoot: c.parentRoot,
@@ -504,11 +522,3 @@ func (v *View) HeadStateRoot() common.Root { return v.head.state.HashTreeRoot(tr
 var _ beacon.Chain = (*View)(nil)
 var _ beacon.ChainEntry = (*Entry)(nil)
 
-func sortedRoots(m map[common.Root]bool) []common.Root {
-	out := make([]common.Root, 0, len(m))
-	for k := range m {
-		out = append(out, k)
-	}
-	sort.Slice(out, func(i, j int) bool { return string(out[i][:]) < string(out[j][:]) })
-	return out
-}
